@@ -87,10 +87,16 @@ impl WorkspaceIndex {
         self.files.insert(path.to_path_buf(), result);
     }
 
-    /// Re-analyze a file by reading it from disk.
+    /// Re-analyze a file by reading it from disk.  A file that cannot be read
+    /// (e.g. a buffer that was closed without ever being saved) no longer
+    /// exists as far as the workspace is concerned: drop its entry instead of
+    /// keeping the stale in-memory analysis.
     pub fn update_from_disk(&mut self, path: &Path) {
-        if let Ok(content) = std::fs::read_to_string(path) {
-            self.update_from_content(path, &content);
+        match std::fs::read_to_string(path) {
+            Ok(content) => self.update_from_content(path, &content),
+            Err(_) => {
+                self.files.remove(path);
+            }
         }
     }
 
